@@ -10,12 +10,17 @@ export VERIF_REPO=$REPO
 cd "$ROOT"
 miss=0
 for d in seeded/*/; do
-  name=$(basename $d); id=${name%%-*}
+  name=$(basename $d); own=${name%%-*}
+  # the checks recorded as catching this change (seeded/<name>/checks.txt); the own property's check first
+  ids=$(grep -oE "^ *C[0-9]+ caught" "$d/checks.txt" 2>/dev/null | awk '{print $1}' | sort -u | tr '\n' ' ')
+  [ -n "$ids" ] || ids=$own
   ( cd $REPO && git checkout -q -- . && git apply "$ROOT/$d/patch.diff" ) || { echo "$name patch does not apply"; continue; }
-  out=$(VERIF_SEED=${VERIF_SEED:-1} ./run.sh $id quick 2>&1); rc=$?
+  for id in $ids; do
+    out=$(VERIF_SEED=${VERIF_SEED:-1} ./run.sh $id quick 2>&1); rc=$?
+    sum=$(echo "$out" | grep "tier=" | sed 's/.*: //')
+    sig=$(echo "$out" | grep -E "^  sig=" | head -1 | sed 's/^  sig=//')
+    if [ $rc -eq 1 ]; then echo "$name caught by $id [$sum] $sig"; else echo "$name NO LONGER CAUGHT by $id rc=$rc [$sum]"; miss=1; fi
+  done
   ( cd $REPO && git checkout -q -- . )
-  sum=$(echo "$out" | grep "tier=" | sed 's/.*: //')
-  sig=$(echo "$out" | grep -E "^  sig=" | head -1 | sed 's/^  sig=//')
-  if [ $rc -eq 1 ]; then echo "$name caught by $id [$sum] $sig"; else echo "$name MISSED by $id rc=$rc [$sum]"; miss=1; fi
 done
 exit $miss
